@@ -11,5 +11,5 @@ for p in sorted(glob.glob(os.path.join(D, "seeded", "*", "meta.json"))):
     sig = ", ".join(s for s in sig.replace("sig=", "").split(",") if s)[:90]
     def short(s, n): 
         s = " ".join(str(s).split()); return (s[:n] + "...") if len(s) > n else s
-    caught = (m["property"] + " quick") if m.get("caught_by_check") else "NOT CAUGHT"
+    caught = (m.get("check_run") or m["property"]) + " quick" if m.get("caught_by_check") else "NOT CAUGHT"
     print(f"| {name} | {short(m.get('breaks',''),150)} | {short(m.get('needs_to_manifest',''),110)} | {caught} | {sig} | {short(m.get('note',''),160)} |")
